@@ -223,6 +223,7 @@ func c02Cfg(rng *rand.Rand, up4 bool) hCfg {
 			c.PChooseDL = 35
 		}
 	}
+	c.ShufflePDI = rng.Intn(2) == 0
 	c.Seqs = func(r *rand.Rand) uint32 {
 		switch r.Intn(8) {
 		case 0:
@@ -311,5 +312,123 @@ func TestVerif_C02(t *testing.T) {
 				return
 			}
 		}
+	}
+	for k := range agents {
+		if agents[k] != nil {
+			agents[k].stop(vStopWatchdog)
+			agents[k] = nil
+		}
+	}
+	c02Bursts(res)
+}
+
+// c02Bursts: (i) long runs of Heartbeat Requests, before and after association, on agents with and without the heartbeat
+// timer: every one is answered exactly once; (ii) large requests (several kilobytes: many rules with long flow descriptions)
+// are answered like small ones.
+func c02Bursts(res *vResult) {
+	n := vEnv.pick(36, 1500)
+	for k := 0; k < n; k++ {
+		idx := 3000000 + k
+		if !vEnv.mine(idx) {
+			continue
+		}
+		rng := vEnv.rng("c02b", k)
+		o := vDefaultOpts(rng.Intn(4) == 0, vEnv.addr(1))
+		o.HB, o.HBInterval, o.RespTimeout, o.MaxRetries = rng.Intn(3) != 0, 30*time.Second, 2*time.Second, 3
+		o.UEAlloc, o.UEPool = true, "10.60.0.0/16"
+		desc := map[string]interface{}{"family": "bursts", "up4": o.UP4, "hb_timer": o.HB}
+		res.begin(idx, fmt.Sprintf("c02 bursts %d hb=%v up4=%v", k, o.HB, o.UP4), desc)
+		a, err := vStartAgent(o)
+		if err != nil {
+			res.inconclusive("agent start: " + err.Error())
+			return
+		}
+		func() {
+			defer a.stop(vStopWatchdog)
+			p, err := vNewPeer(vEnv.addr(2), o.N4)
+			if err != nil {
+				return
+			}
+			defer p.close()
+			p.barrierWait, p.barrierTries = 1500*time.Millisecond, 20
+			burst := func(when string, base uint32) {
+				nhb := 101 + rng.Intn(120)
+				var replies []message.Message
+				for i := 0; i < nhb; i++ {
+					p.send(p.heartbeat(base + uint32(i)))
+					if i%16 == 15 {
+						replies = append(replies, p.drain(3*time.Millisecond)...)
+					}
+				}
+				ex := p.barrier(&vExchange{})
+				replies = append(replies, ex.Replies...)
+				got := map[uint32]int{}
+				for _, m := range replies {
+					if hr, ok := m.(*message.HeartbeatResponse); ok {
+						got[hr.SequenceNumber]++
+					}
+				}
+				res.event("heartbeats_in_bursts", nhb)
+				if !ex.BarrierOK {
+					res.violate("C02.R1", "heartbeat-burst-unanswered "+when, fmt.Sprintf("after a run of %d Heartbeat Requests (%s) the association no longer answers", nhb, when), desc)
+					return
+				}
+				for i := 0; i < nhb; i++ {
+					if c := got[base+uint32(i)]; c != 1 {
+						res.violate("C02.R1", fmt.Sprintf("heartbeat-in-burst answered=%d %s", c, when), fmt.Sprintf("Heartbeat Request %d of a run of %d (%s) was answered %d times, exactly once expected", i+1, nhb, when, c), desc)
+						return
+					}
+				}
+			}
+			// (the very first datagram of a peer is handled on the node's goroutine; one that follows it before the peer's own
+			// socket exists may be dropped like any UDP datagram: wait for the first answer, then send the run)
+			if c01Request(p, p.heartbeat(0xFFFFF), 0xFFFFF) == nil {
+				res.violate("C02.R1", "first-heartbeat-unanswered", "the first Heartbeat Request of a new peer was not answered", desc)
+				return
+			}
+			burst("before association", 0x100000)
+			if c01Request(p, p.assocSetup(1), 1) == nil {
+				res.violate("C02.R1", "setup-unanswered-after-burst", "Association Setup Request after a run of heartbeats was not answered", desc)
+				return
+			}
+			burst("after association", 0x200000)
+			// large requests
+			for j := 0; j < 2; j++ {
+				seq := uint32(50 + j*10)
+				npairs := 6 + rng.Intn(14)
+				est := c10Session(seq, uint64(0xB16000+k*16+j), 40000+k*4+j)
+				if o.UP4 {
+					npairs = 1 // one pair, long descriptions do not apply; UP4 creates at establishment only: keep it valid
+				}
+				for q := 1; q < npairs; q++ {
+					up, dn := est.PDRs[0], est.PDRs[1]
+					up.ID, dn.ID = uint16(2*q+1), uint16(2*q+2)
+					up.FAR, dn.FAR = uint32(100+2*q+1), uint32(100+2*q+2)
+					sdf := fmt.Sprintf("permit out udp from 10.%d.%d.0/24 %d to assigned", 100+q, j, 2000+q)
+					up.SDF, dn.SDF = sdf, sdf
+					up.Prec, dn.Prec = uint32(300+q), uint32(300+q)
+					est.PDRs = append(est.PDRs, up, dn)
+					fu, fd := est.FARs[0], est.FARs[1]
+					fu.ID, fd.ID = up.FAR, dn.FAR
+					est.FARs = append(est.FARs, fu, fd)
+				}
+				raw := p.establish(est)
+				m := c01Request(p, raw, seq)
+				res.event("large_requests", 1)
+				res.distinct(fmt.Sprintf("large/%dB/up4=%v", len(raw)/500*500, o.UP4))
+				if m == nil {
+					res.violate("C02.R1", "large-request-unanswered", fmt.Sprintf("a well-formed Session Establishment Request of %d bytes (%d PDRs) was not answered", len(raw), len(est.PDRs)), desc)
+					return
+				}
+				r := vDecodeReply(m)
+				if r.Type != message.MsgTypeSessionEstablishmentResponse {
+					res.violate("C02.R2", "large-request-wrong-type", fmt.Sprintf("Session Establishment Request of %d bytes answered with message type %d", len(raw), r.Type), desc)
+				} else if r.Cause == ie.CauseRequestAccepted {
+					c01Request(p, p.deletion(seq+1, c01UPSEID(m)), seq+1)
+				}
+			}
+			res.eval(1)
+			res.distinct(fmt.Sprintf("bursts/hb=%v/up4=%v", o.HB, o.UP4))
+		}()
 	}
 }
